@@ -146,19 +146,97 @@ def rule_r1(rep, program: Program, et: ExcTypes):
     return r
 
 
+class _Unknown(Exception):
+    pass
+
+
+def _fold(e, env):
+    """Constant folding of a guard expression over integers / tuples of integers."""
+    if isinstance(e, ast.Constant) and isinstance(e.value, (int, float, bool)):
+        return e.value
+    if isinstance(e, ast.Name):
+        if e.id in env:
+            return env[e.id]
+        raise _Unknown(e.id)
+    if isinstance(e, ast.Tuple):
+        return tuple(_fold(x, env) for x in e.elts)
+    if isinstance(e, ast.Subscript) and isinstance(e.slice, ast.Constant):
+        return _fold(e.value, env)[e.slice.value]
+    if isinstance(e, ast.UnaryOp) and isinstance(e.op, ast.Not):
+        return not _fold(e.operand, env)
+    if isinstance(e, ast.UnaryOp) and isinstance(e.op, ast.USub):
+        return -_fold(e.operand, env)
+    if isinstance(e, ast.BoolOp):
+        vals = [_fold(v, env) for v in e.values]
+        return all(vals) if isinstance(e.op, ast.And) else any(vals)
+    if isinstance(e, ast.Compare):
+        left = _fold(e.left, env)
+        for op, c in zip(e.ops, e.comparators):
+            right = _fold(c, env)
+            ok = {ast.Lt: left < right, ast.LtE: left <= right, ast.Gt: left > right, ast.GtE: left >= right, ast.Eq: left == right, ast.NotEq: left != right}.get(type(op))
+            if ok is None:
+                raise _Unknown(norm(e))
+            if not ok:
+                return False
+            left = right
+        return True
+    if isinstance(e, ast.BinOp) and isinstance(e.op, (ast.Add, ast.Sub, ast.Mult)):
+        a, b = _fold(e.left, env), _fold(e.right, env)
+        return a + b if isinstance(e.op, ast.Add) else a - b if isinstance(e.op, ast.Sub) else a * b
+    if isinstance(e, ast.Call) and norm(e.func) in ("int", "min", "max", "len") and not e.keywords:
+        args = [_fold(a, env) for a in e.args]
+        return {"int": lambda: int(args[0]), "min": lambda: min(*args) if len(args) > 1 else min(args[0]), "max": lambda: max(*args) if len(args) > 1 else max(args[0]), "len": lambda: len(args[0])}[norm(e.func)]()
+    raise _Unknown(norm(e)[:40])
+
+
+def _rejects(f, value) -> bool | None:
+    """Does the function raise before storing anything when its step-count argument is ``value``?
+    Straight-line folding of the guard statements; None when a guard cannot be folded."""
+    params = [p for p in f.params if p not in ("self", "system", "integrator")]
+    env = dict.fromkeys(params, value)
+    for st in f.body_without_docstring():
+        if isinstance(st, ast.Expr):
+            continue  # docstring / super().__init__(...)
+        if isinstance(st, ast.Assign) and len(st.targets) == 1 and isinstance(st.targets[0], (ast.Name, ast.Tuple)):
+            try:
+                v = _fold(st.value, env)
+            except _Unknown:
+                continue
+            t = st.targets[0]
+            if isinstance(t, ast.Name):
+                env[t.id] = v
+            elif isinstance(v, tuple) and len(v) == len(t.elts) and all(isinstance(x, ast.Name) for x in t.elts):
+                env.update({x.id: y for x, y in zip(t.elts, v)})
+            continue
+        if isinstance(st, ast.If) and any(isinstance(s2, ast.Raise) for s2 in st.body):
+            try:
+                if _fold(st.test, env):
+                    return True
+            except (_Unknown, TypeError):
+                return None
+            continue
+        if isinstance(st, ast.Assign):
+            return False  # a store (self.n_step = ...) is reached without a raise
+    return False
+
+
 def rule_r1b(rep, program: Program):
-    r = rep.rule("R1b", "zero-step trajectories are rejected by constructors and setters (n_step <= 0, lower <= 0)", floor=7)
-    sites = [("MetropolisStaticIntegrationTransition", "__init__", "n_step <= 0"), ("MetropolisRandomIntegrationTransition", "__init__", None), ("StaticMetropolisHMC", "n_step", "value <= 0"), ("RandomMetropolisHMC", "n_step_range", None)]
-    for cls, name, _ in sites:
+    r = rep.rule("R1b", "zero-step trajectories are rejected by constructors and setters (every non-positive step count / lower bound raises before anything is stored)", floor=7)
+    sites = [("MetropolisStaticIntegrationTransition", "__init__", False), ("MetropolisRandomIntegrationTransition", "__init__", True), ("StaticMetropolisHMC", "n_step", False), ("RandomMetropolisHMC", "n_step_range", True)]
+    for cls, name, is_range in sites:
         k = program.cls(cls)
         f = k.methods.get(name) if name == "__init__" else k.setters.get(name)
         if f is None:
             raise AnalysisError(f"{cls}.{name} not found")
-        guards = [norm(st.test) for st in ast.walk(f.node) if isinstance(st, ast.If) and any(isinstance(s, ast.Raise) for s in st.body)]
-        ok = any(g in ("n_step <= 0", "value <= 0", "n_step < 1", "value < 1") or ("> 0" in g and g.startswith("not ")) for g in guards)
-        r.inst({"site": f"{cls}.{name}", "guards": guards})
-        if not ok:
-            r.violate(PROP, f"{cls}.{name}:no-positive-guard", "a non-positive number of integrator steps is not rejected: with zero steps the 'proposal' is the start state itself and the direction is flipped twice on it", node=f.node, file=f.file)
+        verdicts = {}
+        for v in (0, -3):
+            verdicts[v] = _rejects(f, (v, 5) if is_range else v)
+        r.inst({"site": f"{cls}.{name}", "rejects": {str(a): b for a, b in verdicts.items()}})
+        if any(b is None for b in verdicts.values()):
+            raise AnalysisError(f"{cls}.{name}: guard outside the foldable grammar")
+        if not all(verdicts.values()):
+            bad = [a for a, b in verdicts.items() if not b]
+            r.violate(PROP, f"{cls}.{name}:no-positive-guard", f"a non-positive number of integrator steps ({bad[0]}) is not rejected: with zero steps the 'proposal' is the start state itself and the direction is flipped twice on it", node=f.node, file=f.file)
     # the trajectory length handed to the shared Metropolis step does not depend on the state:
     # reversibility of the proposal needs the same length from the proposed state back
     for cls in ("MetropolisStaticIntegrationTransition", "MetropolisRandomIntegrationTransition"):
